@@ -63,12 +63,12 @@ inductive PC where
 
 /-- program points without payload -/
 inductive Cls where
-  | head | chk | run | noTask | idleReg | hasL | readQT | readQF | willWait | waiting
+  | head | chkT | chkF | run | noTask | idleReg | hasL | readQT | readQF | willWait | waiting
   | woken | unlocking | unreg | exiting | gone
   deriving DecidableEq, Repr
 
 def PC.cls : PC → Cls
-  | .head => .head | .chk _ => .chk | .run _ => .run | .noTask => .noTask
+  | .head => .head | .chk true => .chkT | .chk false => .chkF | .run _ => .run | .noTask => .noTask
   | .idleReg => .idleReg | .hasL => .hasL | .readQ true => .readQT | .readQ false => .readQF
   | .willWait => .willWait | .waiting => .waiting | .woken => .woken
   | .unlocking => .unlocking | .unreg => .unreg | .exiting => .exiting | .gone => .gone
@@ -122,6 +122,8 @@ inductive Event where
   | aSignal (w : Option Nat)    -- AddTask: Signal (wakes waiter w / nobody is waiting); L.Unlock()
   | swcUp (n : Nat)             -- SetWorkerCount up: workerKill = 0, n new workers
   | swcDown (k : Nat)           -- SetWorkerCount down: workerKill = k+1
+  | swcSet (count : Nat)        -- SetWorkerCount after the resize-race repair: one critical section computing
+                                -- the delta from the workers not yet told to exit
   | swcLock                     -- … L.Lock()
   | swcBcast                    -- … Broadcast(); L.Unlock()
   | joinKill                    -- JoinAll: workerKill = -1
@@ -134,6 +136,14 @@ def cntOf (pcs : List PC) (c : Cls) : Nat := pcs.countP (fun p => p.cls = c)
 /-- workers between L.Lock() and L.Unlock()/Wait() -/
 def holders (f : Cls → Nat) : Nat :=
   f .hasL + f .readQT + f .readQF + f .willWait + f .unlocking
+
+/-- workers that have not been told to exit (not `exiting`, not `gone`):
+    `len(workerMap) - workerExiting` -/
+def clive (f : Cls → Nat) : Nat :=
+  f .head + f .chkT + f .chkF + f .run + f .noTask + f .idleReg + f .hasL + f .readQT + f .readQF + f .willWait
+    + f .waiting + f .woken + f .unlocking + f .unreg
+
+def State.live (s : State) : Nat := clive (cntOf s.pcs)
 
 def lockFree (s : State) : Bool :=
   s.adderL = 0 ∧ s.swcL = 0 ∧ holders (cntOf s.pcs) = 0
@@ -220,6 +230,10 @@ def step (v : Variant) (s : State) : Event → Option State
     else none
   | .swcUp n => some { s with kill := 0, pcs := s.pcs ++ List.replicate n head }
   | .swcDown k => some { s with kill := (k : Int) + 1, swcPend := s.swcPend + 1 }
+  | .swcSet c =>
+    if s.live < c then some { s with kill := 0, pcs := s.pcs ++ List.replicate (c - s.live) head }
+    else if s.live = c then some { s with kill := min s.kill 0 }  -- JoinAll's -1 stays
+    else some { s with kill := ((s.live - c : Nat) : Int), swcPend := s.swcPend + 1 }
   | .swcLock =>
     if 0 < s.swcPend && lockFree s then some { s with swcPend := s.swcPend - 1, swcL := 1 } else none
   | .swcBcast =>
@@ -246,8 +260,6 @@ def idleRegistered (f : Cls → Nat) : Nat :=
 /-- `len(workerIdleMap)` -/
 def State.idleCount (s : State) : Nat := idleRegistered (cntOf s.pcs)
 
-/-- workers that have not been told to exit (not `exiting`, not `gone`) -/
-def State.live (s : State) : Nat := s.pcs.length - cntOf s.pcs .gone - cntOf s.pcs .exiting
 
 /-- exit condition of WaitAll's loop, evaluated on its snapshot (both locks held) -/
 def waitAllGuard (s : State) : Bool :=
@@ -302,18 +314,20 @@ def CState.mv (s : CState) (a b : Cls) : Option CState :=
 /-- abstract event: the concrete event plus the facts about the acting worker that the
     abstraction forgets -/
 inductive CEvent where
-  | killExit | killPass | pop | popNone (ok : Bool) | finish | regIdle | wLock | readQ
+  | killExit | killPass | pop (ok : Bool) | popNone (ok : Bool) | finish | regIdle | wLock | readQ
   | readKill (p : Bool) | wWait | wRelock | wUnlock | unregIdle | exit
-  | aPush | aLock | aSignal (some : Bool) | swcUp (n : Nat) | swcDown (k : Nat) | swcLock | swcBcast
+  | aPush | aLock | aSignal (some : Bool) | swcUp (n : Nat) | swcDown (k : Nat) | swcSet (c : Nat) | swcLock | swcBcast
   | joinKill | bcast
   deriving DecidableEq, Repr
 
 /-- the repaired protocol on counters -/
 def cstep (s : CState) : CEvent → Option CState
   | .killExit => if 0 < s.kill then ({ s with kill := s.kill - 1 } : CState).mv .head .exiting else none
-  | .killPass => if 0 < s.kill then none else s.mv .head .chk
-  | .pop => if 0 < s.queue then ({ s with queue := s.queue - 1 } : CState).mv .chk .run else none
-  | .popNone ok => if s.queue = 0 then s.mv .chk (if ok then .noTask else .exiting) else none
+  | .killPass => if 0 < s.kill then none else s.mv .head (if s.kill != -1 then .chkT else .chkF)
+  | .pop ok =>
+    if 0 < s.queue then ({ s with queue := s.queue - 1 } : CState).mv (if ok then .chkT else .chkF) .run else none
+  | .popNone ok =>
+    if s.queue = 0 then s.mv (if ok then .chkT else .chkF) (if ok then .noTask else .exiting) else none
   | .finish => s.mv .run .head
   | .regIdle => s.mv .noTask .idleReg
   | .wLock => if clockFree s then s.mv .idleReg .hasL else none
@@ -334,6 +348,10 @@ def cstep (s : CState) : CEvent → Option CState
     else none
   | .swcUp n => some { s with kill := 0, cnt := caddHead n s.cnt }
   | .swcDown k => some { s with kill := (k : Int) + 1, swcPend := s.swcPend + 1 }
+  | .swcSet c =>
+    if clive s.cnt < c then some { s with kill := 0, cnt := caddHead (c - clive s.cnt) s.cnt }
+    else if clive s.cnt = c then some { s with kill := min s.kill 0 }
+    else some { s with kill := ((clive s.cnt - c : Nat) : Int), swcPend := s.swcPend + 1 }
   | .swcLock => if 0 < s.swcPend && clockFree s then some { s with swcPend := s.swcPend - 1, swcL := 1 } else none
   | .swcBcast => if s.swcL = 1 then some { s with swcL := 0, cnt := cwakeAll s.cnt } else none
   | .joinKill => some { s with kill := -1 }
@@ -341,14 +359,15 @@ def cstep (s : CState) : CEvent → Option CState
 
 /-- the abstract event of a concrete event in a state -/
 def absEvent (s : State) : Event → CEvent
-  | .killExit _ => .killExit | .killPass _ => .killPass | .pop _ _ => .pop
+  | .killExit _ => .killExit | .killPass _ => .killPass
+  | .pop i _ => .pop (match s.pcs[i]? with | some (.chk ok) => ok | _ => true)
   | .popNone i => .popNone (match s.pcs[i]? with | some (.chk ok) => ok | _ => true)
   | .finish _ => .finish | .regIdle _ => .regIdle | .wLock _ => .wLock | .readQ _ => .readQ
   | .readKill i => .readKill (match s.pcs[i]? with | some (.readQ p) => p | _ => true)
   | .wWait _ => .wWait | .wRelock _ => .wRelock | .wUnlock _ => .wUnlock
   | .unregIdle _ => .unregIdle | .exit _ => .exit
   | .aPush _ => .aPush | .aLock => .aLock | .aSignal w => .aSignal w.isSome
-  | .swcUp n => .swcUp n | .swcDown k => .swcDown k | .swcLock => .swcLock | .swcBcast => .swcBcast
+  | .swcUp n => .swcUp n | .swcDown k => .swcDown k | .swcSet c => .swcSet c | .swcLock => .swcLock | .swcBcast => .swcBcast
   | .joinKill => .joinKill | .bcast => .bcast
 
 def CReachable (c : CState) : Prop := ∃ es : List CEvent, es.foldlM cstep cinit = some c
